@@ -50,7 +50,7 @@ fn attribute_value(value: &str, known: &Known) -> Option<Verdict> {
 
 const HAZ: &[&str] = &[
     "'", "\"", "\\", "`", "\n", "\r", "\t", "--", "/*", "*/", ";", "{", "}", "{{", "$", "%", "_", "\0", "😀", "é", "e\u{301}",
-    "\r\n", " \n", "\t\n", " \r\n", "''", "\\'", "\\\\", "' OR 1=1 --", "\\n", "x", " ", "a", "1", "\u{a0}", "\u{2028}", "$1", "${x}", "#", "@", "\\u{41}", "\\x41",
+    "\r\n", " \n", "\t\n", " \r\n", "''", "\"\"", "\"\"\"\"", "''''", "a\"\"b", "\" \"\"", "\\'", "\\\\", "' OR 1=1 --", "\\n", "x", " ", "a", "1", "\u{a0}", "\u{2028}", "$1", "${x}", "#", "@", "\\u{41}", "\\x41",
 ];
 
 fn gen_value(t: &mut Tape) -> String {
@@ -76,10 +76,20 @@ fn spell(t: &mut Tape, v: &str) -> (String, String) {
     if !v.contains("'''") && !v.ends_with('\'') && !v.starts_with('\'') && !v.is_empty() {
         forms.push("triple-single");
     }
+    // five quotes: shorter runs of the same quote may occur inside
+    if !v.contains("\"\"\"\"\"") && !v.ends_with('"') && !v.starts_with('"') && !v.is_empty() {
+        forms.push("quint-double");
+    }
+    if !v.contains("'''''") && !v.ends_with('\'') && !v.starts_with('\'') && !v.is_empty() {
+        forms.push("quint-single");
+    }
     if !has('"') && !has('\'') && !has('\n') && !has('\r') {
         forms.push("raw");
     }
     forms.push("fstring");
+    if !v.contains("\"\"\"") && !v.ends_with('"') && !v.starts_with('"') && !v.is_empty() {
+        forms.push("fstring-triple");
+    }
     let form = *t.pick(&forms);
     let esc = |q: char, braces: bool| -> String {
         let mut o = String::new();
@@ -106,6 +116,9 @@ fn spell(t: &mut Tape, v: &str) -> (String, String) {
         "single" => format!("'{}'", esc('\'', false)),
         "triple-double" => format!("\"\"\"{}\"\"\"", esc('\u{1}', false)),
         "triple-single" => format!("'''{}'''", esc('\u{1}', false)),
+        "quint-double" => format!("\"\"\"\"\"{}\"\"\"\"\"", esc('\u{1}', false)),
+        "quint-single" => format!("'''''{}'''''", esc('\u{1}', false)),
+        "fstring-triple" => format!("f\"\"\"{}\"\"\"", esc('\u{1}', true)),
         "raw" => format!("r\"{v}\""),
         _ => format!("f\"{}\"", esc('"', true)),
     };
@@ -206,7 +219,7 @@ pub fn gen_case(t: &mut Tape) -> Case {
         _ => Lit::Bool { value: t.chance(1, 2) },
     };
     // an f-string is an expression, not a literal: relation literals accept literals only
-    let relation_literal = relation_literal && !matches!(&lit, Lit::Str { form, .. } if form == "fstring");
+    let relation_literal = relation_literal && !matches!(&lit, Lit::Str { form, .. } if form.starts_with("fstring"));
     Case { lit, relation_literal }
 }
 
